@@ -36,17 +36,21 @@ VARIABLES l,        \* next trace line
           log,      \* abstract log: sequence of digests (hex)
           hmap,     \* digest -> version as the hyper tree must hold it
           hroot,    \* HRoot(hmap), computed once per insertion
+          hyps,     \* hyper root carried by the snapshot of each version (index v+1)
           reopened, \* the store was closed and reopened during this run
           viol      \* set of "<property>|<line>|<what>"
 
-vars == <<l, log, hmap, hroot, reopened, viol>>
+vars == <<l, log, hmap, hroot, hyps, reopened, viol>>
+
+(* the trace is linear: the line number identifies the state *)
+View == l
 
 Tag(prop, what) == prop \o "|" \o ToString(l) \o "|" \o what
 
 (* C08 shadows every failure that shows up after a reopen *)
 Fails(tags) == tags \cup (IF reopened THEN { "C08|" \o t : t \in tags } ELSE {})
 
-Init == l = 2 /\ log = <<>> /\ hmap = <<>> /\ hroot = D(NB) /\ reopened = FALSE /\ viol = {}
+Init == l = 2 /\ log = <<>> /\ hmap = <<>> /\ hroot = D(NB) /\ hyps = <<>> /\ reopened = FALSE /\ viol = {}
 
 Ev == Trace[l]
 
@@ -73,6 +77,7 @@ StepAdd ==
      /\ log' = log2
      /\ hmap' = hmap2
      /\ hroot' = hr2
+     /\ hyps' = hyps \o [i \in 1..Len(Ev.bulk) |-> hr2]
      /\ viol' = viol \cup Fails(AddChecks(Ev, log2, hr2))
   /\ UNCHANGED reopened
 
@@ -94,7 +99,7 @@ MemberChecks(e) ==
         wire == [exists |-> e.exists, actual |-> e.actual, query |-> e.query, key |-> e.key,
                  hyper |-> hp, history |-> hi]
         specAcc == /\ cur >= 0
-                   /\ DigestVerifyAsImplemented(wire, e.d, Root(log, qv), hroot)
+                   /\ DigestVerifyIntended(wire, e.d, Root(log, qv), hroot)
     IN
     (IF inRange /\ ~e.exists THEN {Tag("C01", "inserted event reported absent")} ELSE {})
     \cup (IF inRange /\ e.exists /\ ~(e.actual \in Positions(log, e.d))
@@ -129,7 +134,7 @@ MemberChecks(e) ==
 StepMember ==
   /\ Ev.a = "member"
   /\ viol' = viol \cup Fails(MemberChecks(Ev))
-  /\ UNCHANGED <<log, hmap, hroot, reopened>>
+  /\ UNCHANGED <<log, hmap, hroot, hyps, reopened>>
 
 (*------------------------------------------------------------- incr ------*)
 IncrChecks(e) ==
@@ -148,8 +153,15 @@ IncrChecks(e) ==
     \cup (IF e.rs # e.s \/ e.re # e.e THEN {Tag("C03", "proof names other versions")} ELSE {})
     \cup (IF e.v_wire # e.v_local THEN {Tag("C13", "verdict changed by the wire round trip")} ELSE {})
     \cup (IF ~e.wire_fields THEN {Tag("C13", "field changed by the wire round trip")} ELSE {})
-    \cup (IF \E i \in 1..Len(e.alts) : e.alts[i].acc
-          THEN {Tag("C03", "altered proof or wrong digest accepted: " \o e.alts[CHOOSE i \in 1..Len(e.alts) : e.alts[i].acc].k)} ELSE {})
+    \cup UNION { LET al == e.alts[i]
+                     \* a forked log agrees with this one on versions before the fork point, so its
+                     \* digest of such a version IS the genuine digest and must be accepted
+                     same == \/ (al.k = "end_fork" /\ al.at > e.e)
+                             \/ (al.k = "start_fork" /\ al.at > e.s) IN
+                 IF same
+                 THEN (IF ~al.acc THEN {Tag("C03", "genuine digest (fork not yet diverged) rejected")} ELSE {})
+                 ELSE (IF al.acc THEN {Tag("C03", "altered proof or wrong digest accepted: " \o al.k)} ELSE {})
+               : i \in 1..Len(e.alts) }
     \cup (IF \E i \in 1..Len(e.alts) : "panic" \in DOMAIN e.alts[i]
           THEN {Tag("C12", "verifier panicked on an altered proof")} ELSE {})
     \cup (IF p # honest THEN {Tag("D03", "consistency audit path differs from the specification")} ELSE {})
@@ -158,12 +170,66 @@ IncrChecks(e) ==
 StepIncr ==
   /\ Ev.a = "incr"
   /\ viol' = viol \cup Fails(IncrChecks(Ev))
-  /\ UNCHANGED <<log, hmap, hroot, reopened>>
+  /\ UNCHANGED <<log, hmap, hroot, hyps, reopened>>
+
+(*---------------------------------------------------- adversarial answers -*)
+(* An altered / recombined / forged wire answer was handed to the real decoder and the
+   real verifier together with authentic snapshots of this log. *)
+AdvChecks(e) ==
+  LET wire == [exists |-> e.exists, actual |-> e.actual, query |-> e.query, key |-> e.key,
+               hyper |-> PathTerms(e.hyper), history |-> PathTerms(e.history)]
+      histRoot == Root(log, e.histv)
+      hypRoot  == hyps[e.hypv + 1]
+      specInt  == DigestVerifyIntended(wire, e.d, histRoot, hypRoot)
+  IN
+  (IF e.res \in {"panic", "timeout"}
+   THEN {Tag("C12", e.res \o "@" \o (IF "site" \in DOMAIN e THEN e.site ELSE "?") \o " (membership, " \o e.kind \o ")")}
+   ELSE {})
+  \cup (IF e.res = "acc" /\ ~ClaimTrue(log, wire, e.d)
+        THEN {Tag("C02", "accepted a false claim: " \o
+                   (IF ~e.exists THEN "absence-claim" ELSE
+                    IF e.actual > e.query THEN "exists-with-actual>query" ELSE "wrong-digest-or-version")
+                   \o " (" \o e.kind \o ")")}
+        ELSE {})
+  \cup (IF e.kind = "genuine" /\ e.d \in DOMAIN hmap /\ hmap[e.d] <= e.query /\ e.res # "acc"
+        THEN {Tag("C01", "genuine answer not accepted")} ELSE {})
+  \cup (IF ~e.clamped /\ e.res \in {"acc", "rej"} /\ (e.res = "acc") # specInt
+        THEN {Tag("D02", "real verifier and specification verifier disagree (" \o e.kind \o ")")} ELSE {})
+  \cup (IF ~e.clamped /\ e.res = "acc" /\ ~specInt
+        THEN {Tag("D04", "accepted by the code, rejected by the intended verifier (" \o e.kind \o ")")} ELSE {})
+  \cup (IF specInt /\ ~ClaimTrue(log, wire, e.d)
+        THEN {Tag("D05", "SPEC UNSOUND: intended verifier accepts a false claim (" \o e.kind \o ")")} ELSE {})
+
+StepAdv ==
+  /\ Ev.a = "adv"
+  /\ viol' = viol \cup AdvChecks(Ev)
+  /\ UNCHANGED <<log, hmap, hroot, hyps, reopened>>
+
+AdvIncChecks(e) ==
+  LET p == PathTerms(e.path)
+      specV == VerifyIncremental(p, e.s, e.e, Root(log, e.sv), Root(log, e.ev))
+      (* what an accepted proof claims: the log whose digest is snapshot sv is a prefix of the
+         log whose digest is snapshot ev, as versions s and e of one history *)
+      legit == e.s = e.sv /\ e.e = e.ev /\ e.s <= e.e
+  IN
+  (IF e.res \in {"panic", "timeout"}
+   THEN {Tag("C12", e.res \o "@" \o (IF "site" \in DOMAIN e THEN e.site ELSE "?") \o " (incremental, " \o e.kind \o ")")}
+   ELSE {})
+  \cup (IF e.res = "acc" /\ (~legit \/ (~e.clamped /\ ~specV))
+        THEN {Tag("C03", "altered proof or wrong digest accepted (" \o e.kind \o ")")} ELSE {})
+  \cup (IF e.kind = "genuine" /\ e.res # "acc" THEN {Tag("C03", "genuine consistency proof not accepted")} ELSE {})
+  \cup (IF ~e.clamped /\ e.res \in {"acc", "rej"} /\ (e.res = "acc") # specV
+        THEN {Tag("D02", "real verifier and specification verifier disagree (incremental, " \o e.kind \o ")")} ELSE {})
+
+StepAdvInc ==
+  /\ Ev.a = "advinc"
+  /\ viol' = viol \cup AdvIncChecks(Ev)
+  /\ UNCHANGED <<log, hmap, hroot, hyps, reopened>>
 
 (*------------------------------------------------------ other events -----*)
 StepReset ==
   /\ Ev.a = "reset"
-  /\ log' = <<>> /\ hmap' = <<>> /\ hroot' = D(NB) /\ reopened' = FALSE
+  /\ log' = <<>> /\ hmap' = <<>> /\ hroot' = D(NB) /\ hyps' = <<>> /\ reopened' = FALSE
   /\ UNCHANGED viol
 
 StepReopen ==
@@ -172,16 +238,16 @@ StepReopen ==
   /\ viol' = viol \cup (IF Ev.version # Len(log)
                         THEN {Tag("C08", "version after reopen differs"), Tag("C05", "version after reopen differs")}
                         ELSE {})
-  /\ UNCHANGED <<log, hmap, hroot>>
+  /\ UNCHANGED <<log, hmap, hroot, hyps>>
 
 StepInfo ==
   /\ Ev.a \in {"forkinfo", "universe"}
-  /\ UNCHANGED <<log, hmap, hroot, reopened, viol>>
+  /\ UNCHANGED <<log, hmap, hroot, hyps, reopened, viol>>
 
 Next ==
   /\ l <= Len(Trace)
   /\ l' = l + 1
-  /\ (StepAdd \/ StepMember \/ StepIncr \/ StepReset \/ StepReopen \/ StepInfo)
+  /\ (StepAdd \/ StepMember \/ StepIncr \/ StepAdv \/ StepAdvInc \/ StepReset \/ StepReopen \/ StepInfo)
 
 Spec == Init /\ [][Next]_vars
 
